@@ -187,6 +187,8 @@ MUTANTS += [
     dict(id='c12-powint-skips-last-square', props=['C12', 'C01'], file=MC,
          old='            if n & 1:\n                out = out * base\n            n >>= 1\n            if n > 0:\n                base = base * base',
          new='            if n & 1:\n                out = out * base\n            n >>= 1\n            if n > 1:\n                base = base * base'),
+    dict(id='c12-undo-div-scaling', props=['C01', 'C12'], file=MC,
+         old='        if isinstance(other, Bicomplex):\n            # scale numerator', new='        if False:\n            # scale numerator'),
     dict(id='c12-undo-f5-expm1', props=['C12', 'C01'], file=MC,
          old="        return Bicomplex(expz1 * np.cos(self.z2) - 2 * np.sin(0.5 * self.z2) ** 2,\n                         (expz1 + 1) * np.sin(self.z2))",
          new="        return Bicomplex(expz1 * np.cos(self.z2), expz1 * np.sin(self.z2))"),
